@@ -33,6 +33,10 @@ pub struct Entry {
     pub layout: fn() -> String,
     /// value term -> schema rows and bytes of `serialize_with_schema`, `debug`/`to_csv` outcomes
     pub schema: fn(&Term) -> String,
+    /// value term, writer spec -> result and bytes accepted by a faulty writer
+    pub wfail: fn(&Term, &str) -> String,
+    /// bytes, fragmentation pattern, failure position, eof-instead-of-error -> result of deserialize_full
+    pub rchunk: Option<fn(&[u8], &str, Option<usize>, bool) -> String>,
     pub extra: ops::Extra,
 }
 
@@ -206,6 +210,16 @@ where
             Some(v) => schema_generic(&v),
             None => "badterm".into(),
         },
+        wfail: |t, spec| match catch(|| T::from_term(t)) {
+            Some(v) => {
+                let before = ser_generic(&v);
+                let r = ops::wfail_generic(&v, spec);
+                let after = ser_generic(&v);
+                format!("{} intact={}", r, before == after)
+            }
+            None => "badterm".into(),
+        },
+        rchunk: Some(ops::rchunk_generic::<T>),
         extra: ops::Extra::new::<T>(),
     }
 }
